@@ -23,23 +23,22 @@ where
     // be in the set into new_ws, implicitly dropping any tasks that are no longer in the
     // working set.
     for elt in &old_ws[1..] {
+        let mut keep = None;
         if let Some(uuid) = elt {
             if let Some(task) = txn.get_task(*uuid).await? {
                 if in_working_set(&task) {
-                    // The existing working-set item is still in the working set -- no change.
-                    new_ws.push(Some(*uuid));
-                    seen.insert(*uuid);
-                } else {
-                    // The item should not be present. If we are not renumbering, then insert a
-                    // blank working-set item here
-                    if !renumber {
-                        new_ws.push(None);
-                    }
+                    keep = Some(*uuid);
                 }
-                continue;
             }
-        } else {
-            // This item was already None.
+        }
+        if let Some(uuid) = keep {
+            // The existing working-set item is still in the working set -- no change.
+            new_ws.push(Some(uuid));
+            seen.insert(uuid);
+        } else if !renumber {
+            // The item was already None, or its task should not be present or no longer exists.
+            // If we are not renumbering, then insert a blank working-set item here, so that
+            // the items after it keep their indexes. When renumbering, all blanks are dropped.
             new_ws.push(None);
         }
     }
